@@ -327,6 +327,13 @@ def callee_name(t):
 PURE_PREDS = ('big', 'zst', 'needs_drop')
 
 
+def const_param_value(v):
+    """value of a flag parameter bound by roles.specialise_flags: ['bool', '0'|'1'] or ['enum', adt, variant]"""
+    if v[0] == 'bool':
+        return ('const', 'bool', v[1])
+    return ('agg', canon(v[1]), v[2], (), ())
+
+
 class State:
     __slots__ = ('env', 'fenv', 'events', 'counter', 'pure', 'visits', 'blocks', 'mem', 'stack', 'body', 'depth', 'decided', 'selfty', 'subst')
 
@@ -425,6 +432,7 @@ ATOMIC_FUNCS = {
 MAX_INLINE_DEPTH = 5
 
 
+STATE_PREDS = ('rc0', 'sc0', 'room', 'full_eq', 'qempty', 'cap_max', 'cap0', 'recv_blocking', 'is_stream', 'terminated', 'both0')
 PTR_WRITERS = ('std::mem::replace', 'std::mem::swap', 'std::mem::take', 'std::ptr::write', 'std::ptr::swap', 'std::ptr::replace',
                'std::ptr::copy_nonoverlapping', 'std::ptr::copy', 'std::ptr::drop_in_place', 'std::option::Option::take',
                'std::option::Option::replace', 'std::option::Option::insert', 'std::option::Option::get_or_insert_with',
@@ -511,6 +519,8 @@ class Evaluator:
 
     def run(self):
         st = State()
+        for n, v in (self.body.j.get('const_params') or {}).items():
+            st.env[int(n)] = const_param_value(v)
         work = [(0, st)]
         try:
             while work:
@@ -629,6 +639,14 @@ class Evaluator:
                 return ('fnptr', canon(o['fn']['path']))
             if 'val' not in o and o.get('constdef'):
                 cv = self.named_const_value(o['constdef'])
+                if cv is None and st.selfty and '::' in o['constdef']:
+                    # `Self::SENDER` inside a provided method of a crate-private trait, spliced for a concrete Self:
+                    # the constant of that impl (`<Sender<T> as Handle<T>>::SENDER`)
+                    tr, nm = o['constdef'].rsplit('::', 1)
+                    pre = '<' + st.selfty + ' as ' + tr
+                    ks = [k for k in self.body.facts.consts if k.endswith('>::' + nm) and (k.startswith(pre + '<') or k.startswith(pre + '>'))]
+                    if len(ks) == 1:
+                        cv = self.named_const_value(ks[0])
                 if cv is not None:
                     return cv
             m = PROMOTED_RE.search(o.get('dbg', ''))
@@ -1030,6 +1048,28 @@ class Evaluator:
                         self.assign(st, t['dest'], ('const', 'bool', '1' if sv[2] == want_ else '0'), t.get('at'), b)
                         b = t['target']
                         continue
+                if name == OPT + '::or' and len(args) == 2 and t.get('target') is not None and args[0][0] != 'agg':
+                    # `a.or(b)` where the variant of `a` was branched on earlier on this path, or where b is None
+                    kv = None
+                    try:
+                        was = st.decided.get(self.imm_norm(('discr', args[0], (('None', '0'), ('Some', '1'))), 0, st))
+                    except TypeError:
+                        was = None
+                    if was is not None and was[0] == 'eq':
+                        kv = 'Some' if was[1] == '1' else 'None'
+                    elif was is not None and was[0] == 'ne' and len(was[1]) == 1:
+                        kv = 'None' if '1' in was[1] else 'Some'
+                    folded = None
+                    if kv == 'Some':
+                        folded = args[0]
+                    elif kv == 'None':
+                        folded = args[1]
+                    elif args[1][0] == 'agg' and args[1][2] == 'None':
+                        folded = args[0]
+                    if folded is not None:
+                        self.assign(st, t['dest'], folded, t.get('at'), b)
+                        b = t['target']
+                        continue
                 a0s = strip_ref_value(args[0]) if args else None
                 if args and t.get('target') is not None and a0s is not None and a0s[0] == 'agg' and a0s[2] in ('Some', 'None', 'Ok', 'Err') \
                         and a0s[1].endswith(('option::Option', 'result::Result')) and (args[0][0] == 'agg' or name.split('::')[-1] in ('is_ok', 'is_err')):
@@ -1106,11 +1146,19 @@ class Evaluator:
                     if fn and fn.get('args') and len(gens) == len(fn['args']) and not fn.get('trait'):
                         outer = st.subst or {}
                         st.subst = {g: outer.get(a, a) for g, a in zip(gens, fn['args']) if g != a}
+                    elif fn and fn.get('args') and len(gens) == len(fn['args']) and callee.key == fn.get('path') and len(gens) > 1:
+                        # a provided trait method with generic parameters of its own (`fn share<H: Handle<T>>(&self) -> H`)
+                        outer = st.subst or {}
+                        st.subst = {g: outer.get(a, a) for g, a in zip(gens[1:], fn['args'][1:]) if g != a}
                     st.depth += 1
                     st.body = callee
                     st.visits = {}
+                    cps = callee.j.get('const_params') or {}
+                    live = [n for n in range(1, callee.j.get('arg_count', len(args)) + 1) if str(n) not in cps] if cps else None
                     for i, a in enumerate(args):
-                        st.env[(i + 1, st.depth)] = a
+                        st.env[((live[i] if live and i < len(live) else i + 1), st.depth)] = a
+                    for n, v in cps.items():
+                        st.env[(int(n), st.depth)] = const_param_value(v)
                     b = 0
                     continue
                 cid = st.counter
@@ -1179,12 +1227,22 @@ class Evaluator:
                     else:
                         cands = [c for c in cands if c[0] is None or c[0] not in prev[1]]
                 nexts = []
+                pkey = None
                 for val, tb in cands:
                     if label_it:
                         lab, outc = classify(d, val, listed)
                         if lab in PURE_PREDS or (lab and lab.startswith('pure:')):
                             if lab in st.pure and st.pure[lab] != outc:
                                 continue
+                        if lab in STATE_PREDS and outc in ('T', 'F'):
+                            # the same named predicate over the same (unwritten) state loads was decided earlier on this path
+                            # in another spelling (`count == 0` then `count != 0`): it keeps its truth value
+                            lds = self.norm_loads(d, st)
+                            if lds:
+                                pkey = ('pred', lab, lds)
+                                was = st.decided.get(pkey)
+                                if was is not None and was != outc:
+                                    continue
                     else:
                         lab, outc = None, None
                     nexts.append((val, tb, lab, outc))
@@ -1237,6 +1295,8 @@ class Evaluator:
                                     s2.decided[dkey] = ('ne', ex)
                         except TypeError:
                             pass
+                    if label_it and pkey is not None and lab in STATE_PREDS and outc in ('T', 'F'):
+                        s2.decided[pkey] = outc
                     if label_it and id(s2) not in skipbr:
                         s2.events.append(Event('br', idx=len(s2.events), label=lab, outcome=outc, val=d,
                                                at=t.get('at'), bb=b, taken=(val, listed)))
@@ -1347,6 +1407,25 @@ class Evaluator:
         for item in todo:
             work.append(item)
         return True
+
+    def norm_loads(self, v, st, depth=0):
+        """the (normalised) state loads a predicate value is built from, as a hashable key; () if none"""
+        out = []
+
+        def walk(x, dd):
+            if not isinstance(x, tuple) or dd > 8:
+                return
+            if x and x[0] == 'load':
+                out.append(self.imm_norm(x, 0, st))
+                return
+            for y in x:
+                if isinstance(y, tuple):
+                    walk(y, dd + 1)
+        walk(v, 0)
+        try:
+            return tuple(sorted(set(out), key=str))
+        except TypeError:
+            return ()
 
     def imm_norm(self, v, depth=0, st=None):
         """key under which a branch decision is remembered: loads of never-written fields lose their time stamp"""
